@@ -129,7 +129,14 @@ def explore(spec, report, max_depth, max_states=None, sig_base=None, stop_on_fir
     # independent objects, so nothing done to the instances under test may change it (class- / module-level state)
     mk = getattr(spec, "decoy", None)
     if mk is not None:
-        d = mk()
+        try:
+            d = mk()
+        except Exception as e:   # noqa -- building a populated second instance uses ordinary operations only
+            d = None
+            report.violation(dict(sig_base, kind="raises", op="second-instance"),
+                             "%s: building a second, populated instance with ordinary operations raised %s: %s" % (
+                                 spec.name, type(e).__name__, e),
+                             {"engine": "seqmc", "spec": spec.name, "detail": "decoy construction", "exc": type(e).__name__})
         if d is not None:
             decoy["obj"], decoy["key"] = d[0], d[1](d[0])
             decoy["keyfn"] = d[1]
